@@ -39,8 +39,11 @@ DecForms(n) ==
   \cup {Samples[i][2] : i \in {j \in 1..Len(Samples) : Samples[j][1] = 2 * n}}      \* values of the next width: too big
 
 Alt(n) == [i \in 1..n |-> IF i % 2 = 1 THEN "1" ELSE "0"]
+\* bit patterns whose bytes differ from each other (byte i holds the number i): byte order and bit order are visible
+ByteCount(n) == [i \in 1..n |-> IF BitsOfNat((((i - 1) \div 8) + 1) % 256, 8)[((i - 1) % 8) + 1] = 1 THEN "1" ELSE "0"]
 BinForms(n) ==
-  {Rep("1", n), Rep("0", n), Alt(n), <<"_">>, <<"0">> \o Alt(n), Rep("1", n) \o <<"_">>, <<"_">> \o Alt(n)}
+  {Rep("1", n), Rep("0", n), Alt(n), <<"_">>, <<"0">> \o Alt(n), Rep("1", n) \o <<"_">>, <<"_">> \o Alt(n),
+   <<"1">> \o Rep("0", n - 1), Rep("0", n - 1) \o <<"1">>, ByteCount(n), <<Head(ByteCount(n)), "_">> \o Tail(ByteCount(n))}
   \cup (IF n > 1 THEN {Tail(Alt(n)), <<"1", "_">> \o Tail(Alt(n)), Rep("1", n - 1), Rep("1", 2 * n)} ELSE {<<"1", "1">>})
 
 HexPat(k, upper) == [i \in 1..k |-> IF upper THEN <<"A", "0", "F", "3", "C", "9", "E", "1">>[(i % 8) + 1]
